@@ -112,6 +112,39 @@ CLAIMED.update({
         "engines, sizes incl. non-multiples of 64, and envelope-boundary configurations.",
    note=CODE_NOTE, ref="DESIGN.md section 5, C13"),
 })
+
+CLAIMED.update({
+ "C03": dict(
+   technique="TLA+ trace validation of cross-engine cases: Trace_Prim (per-primitive, determined region from the contract) and Trace_Code (alleq rounds)",
+   text="Every public primitive is executed by every engine usable here (Naive, NoSimd, Ssse3, Avx2, DefaultEngine, and engine_neon.rs compiled against emulated "
+        "intrinsics) from identical input over a parameter grid; LCH.tla's contracts fix which outputs are determined, and Trace_Prim.tla requires bit-identical digests "
+        "there and untouched shards outside the range (small transforms also equal the polynomial-evaluation contract). The same encode/decode rounds run on every engine "
+        "and Trace_Code.tla requires identical recovery bytes, the closed form, and the originals back.",
+   note="Trusted: TLC, harness, the documented Arm semantics of seven Neon intrinsics. The decision is differential; the specification supplies domain and comparison region.",
+   ref="DESIGN.md section 5, C03"),
+ "C14": dict(
+   technique="Dispatch.tla model-checked for both architectures; trace validation of DefaultEngine under all feature masks (hook H3 counters)",
+   text="Dispatch.tla models the two detection sites (engine construction; eval_poly at each call) and TLC checks, for every subset of reported features and every call "
+        "sequence, that only reported instruction sets run and always the best one. The real code runs under all 4 subsets of {AVX2, SSSE3} via a masked "
+        "is_x86_feature_detected!; every #[target_feature] entry point is counted per call; Trace_Dispatch.tla validates each call against the model and requires "
+        "identical result digests under every mask.",
+   note="Trusted: TLC, hook H3 (mask can only remove features). AArch64 detection is covered by the model only.", ref="DESIGN.md section 5, C14"),
+ "C15": dict(
+   technique="TLA+ trace validation: TLC evaluates GF(2^16)/LCH contracts on all table entries and recorded primitive calls",
+   text="GF.tla builds the field from the polynomial and Cantor basis; LCH.tla states what the skew table, Walsh table, multiplication tables, fft/ifft and eval_poly mean. "
+        "TLC validates every entry of Exp, Log, Skew, LogWalsh, sampled multipliers of Mul16/Mul128, mul on probe blocks (all nibble patterns), fft/ifft for sizes up to 32 "
+        "with every truncated size and boundary skew offsets against the polynomial-evaluation contract, and eval_poly against the locator definition for several truncated "
+        "sizes, for every engine. Thorough adds all 2^32 (symbol, log_m) pairs per engine against the certified tables. Small-field models check the definitions.",
+   note="Trusted: TLC, CommunityModules overrides. Large transforms are covered indirectly (C02 closed form, C03 cross-engine).", ref="DESIGN.md section 5, C15"),
+ "C16": dict(
+   technique="TableInit.tla model-checked (all interleavings, deadlock, liveness) over dependencies observed from the code; trace validation of racing processes",
+   text="Hook H4 records begin/end of each table initialiser. Fresh single-threaded processes yield the actual dependency relation and per-engine programs of the current "
+        "tree; TLC explores all interleavings of 3 threads over them (no re-entrant initialisation, no deadlock, termination under fairness). Fresh multi-threaded "
+        "processes (2..8 threads, barrier, all engines, objects handed over mid-round) are validated by Trace_TableInit.tla: proper nesting, no re-entrancy, nesting "
+        "within observed dependencies, every result equal to sequential execution, normal exit (watchdog for hangs).",
+   note="Trusted: TLC, std::sync::LazyLock semantics as modelled. Real schedules are sampled (60 quick / 2000 thorough processes); all schedules only in the model.",
+   ref="DESIGN.md section 5, C16"),
+})
 PENDING = {}
 for i in range(1, 18):
     pid = "C%02d" % i
